@@ -96,6 +96,7 @@ CHECKS['C01'] = dict(
         dict(name='length', spec=_TBL, args=['length'], tools=['mtbl_dump']),
         dict(name='pool', spec=_TBL, args=['pool']),
         dict(name='struct', spec=_TBL, args=['struct'], tools=['mtbl_dump']),
+        dict(name='giant', spec=H('h_table.c', 'fast'), args=['giant'], shards=1, tiers=['thorough']),
     ],
     states_key='cases', transitions_key='transitions', traces_key='cases',
     rule='one case = (writer configuration, key sequence, value sizes); signature = (compression, restart interval, #blocks<=6, max entries per block<=4, #shortened separators<=3, any multi-restart block)',
@@ -399,7 +400,8 @@ CHECKS['C11'] = dict(
     text='The writer emits one encoding per content; the format allows many. For every strictly increasing key sequence of length <=4 (thorough 5) from K9 the independent encoder produces every partition into blocks, every legal restart set, sharing amounts {0, lcp-1, lcp} per non-restart entry (also in the index block) and, over a second key pool with common prefixes of 2-5 bytes, {0, 1, lcp-1, lcp}, four separator choices per block between "last key" and "just below the next first key", v1 and v2, six compression types, foreign prefix 0/13. The reader (verify_checksums off and on) must return exactly the encoded entries for full iteration, for get/get_prefix/get_range over the 31-string universe, and for seek+next from an exhausted iterator. Blocks larger than 4 GiB with 64-bit restart offsets are built in a lazily zeroed mapping and handed to block_init/block_iter directly.',
     jobs=[dict(name='encoded-files', spec=H('h_encode.c', 'asan'), args=['enc']),
           dict(name='restart64', spec=H('h_encode.c', 'fast'), args=['restart64'], shards=1),
-          dict(name='builder64', spec=H('h_encode.c', 'fast'), args=['bb64'], shards=1, tiers=['thorough'])],
+          dict(name='builder64', spec=H('h_encode.c', 'fast'), args=['bb64'], shards=1, tiers=['thorough']),
+          dict(name='zlib-1GiB-block', spec=H('h_encode.c', 'fast'), args=['zbig'], shards=1, tiers=['thorough'])],
     states_key='states', transitions_key='transitions', traces_key='cases',
     rule='one case = one encoded file; transitions = lookups/seeks compared; signature = (version, compression, #blocks, #restarts, prefix)',
     bounds={'quick': 'key subsets of K9 up to size 4; full product partition x restarts x sharing at v2/none; 4^blocks separator choices per partition; version x 6 compressions x prefix x 2 restart layouts per partition; 3 restart layouts of a 4.0 GiB block',
